@@ -686,6 +686,12 @@ def split_statements(block):
                 # block-like statement ends here unless it continues (else / method call / ? / operator / ;)
                 m = re.compile(r"\s*(else\b|\.|\?|;|,|=|\)|as\b|\+|-|\*|/|&&|\|\|)").match(s, end)
                 head = s[start:i].strip()
+                # leading comments and attributes do not change what kind of statement this is
+                while True:
+                    h2 = re.sub(r"^(//[^\n]*\n\s*|/\*.*?\*/\s*|#\[[^\]]*\]\s*)", "", head, count=1, flags=re.S)
+                    if h2 == head:
+                        break
+                    head = h2
                 blocklike = re.match(r"^(if|for|while|loop|match|unsafe)\b", head) or head == ""
                 if not m and blocklike:
                     out.append(s[start:end].strip()); start = end
